@@ -198,8 +198,12 @@ class Reducer:
 
     def branch_of(self, n):
         """'std' / 'nonstd' / None: is node n on the branch where the child's reference is a standard unit?"""
+        from engines import value_of as _vo
         for cnd, t in (ff(self.f).conds_at(n) or []):
-            if cnd.get('k') == 'Call' and cnd.get('fn') == 'isStandardUnitName' and cnd.get('c'):
+            cnd = _vo(self.f, cnd)      # a test held in a named bool local
+            while cnd is not None and cnd.get('k') == 'Un' and cnd.get('op') == '!' and cnd.get('c'):
+                cnd, t = _vo(self.f, cnd['c'][0]), not t
+            if cnd is not None and cnd.get('k') == 'Call' and cnd.get('fn') == 'isStandardUnitName' and cnd.get('c'):
                 a = self.ev(cnd['c'][0])
                 if a == Poly.sym('ref'):
                     return 'std' if t else 'nonstd'
